@@ -107,6 +107,9 @@ Do(a) ==
                     best' = IF best = NoInd \/ c.o < best.o THEN c ELSE best
             /\ res' = R("ok", 0)
             /\ UNCHANGED <<pop, arch, shownK, evals, calls>>
+       [] a.op = "init_run" ->       \* the init phase of a (further) run on this state: counter and memories start empty
+            /\ best' = NoInd /\ arch' = <<>> /\ shownK' = <<>> /\ evals' = 0 /\ res' = R("ok", 0)
+            /\ UNCHANGED <<pop, calls>>
        [] a.op = "archive_into_population" ->
             /\ pop' = Reinsert(pop, arch, 1) /\ res' = R("ok", 0)
             /\ UNCHANGED <<best, arch, shownK, evals, calls>>
@@ -143,6 +146,7 @@ Acts ==
   \cup {A("evaluate", 0, par) : par \in {0, 1}} \cup {A("evaluate_missing", 0, pl) : pl \in 0..4}
   \cup {A("evaluate_nested", 0, dp) : dp \in 1..3}
   \cup (IF AllEvaluated THEN {A("update_best", 0, 0)} ELSE {})
+  \cup {A("init_run", 0, 0)}
   \cup (IF Len(pop) + Len(arch) <= MaxPop + 1 THEN {A("archive_into_population", 0, 0)} ELSE {})
 
 \* candidates for the new archive in model checking: sequences over archive + population members
@@ -185,7 +189,8 @@ EvaluateExact ==
         /\ evals' = evals + Len(pop) /\ calls' = calls + Len(pop) ]_mvars
 \* C06: the counter moves only with real objective calls made by evaluation steps
 CountOnlyByEvaluate ==
-  [][ /\ act'.op # "evaluate" => evals' = evals
+  [][ /\ act'.op \notin {"evaluate", "init_run"} => evals' = evals
+      /\ act'.op = "init_run" => evals' = 0
       /\ act'.op \notin {"evaluate", "evaluate_with"} => calls' = calls
       /\ act'.op = "evaluate_missing" => res'.k = "err" /\ res'.v = 0 /\ pop' = pop
       /\ act'.op = "evaluate_nested" => res'.k = "ok" /\ res'.v = 2 * Len(pop) /\ pop' = pop ]_mvars
@@ -193,9 +198,10 @@ CountOnlyByEvaluate ==
 \* C07: the best only improves, is replaced only by a strictly better candidate, and right after an
 \* update is at least as good as everyone in the population it was updated from
 BestRules ==
-  [][ /\ best # NoInd => best' # NoInd /\ best'.o <= best.o
-      /\ (best # NoInd /\ best' # best) => best'.o < best.o
-      /\ act'.op # "update_best" => best' = best
+  [][ /\ act'.op = "init_run" => best' = NoInd       \* a run starts without a best: what it reports was seen in that run
+      /\ (act'.op # "init_run" /\ best # NoInd) => best' # NoInd /\ best'.o <= best.o
+      /\ (act'.op # "init_run" /\ best # NoInd /\ best' # best) => best'.o < best.o
+      /\ act'.op \notin {"update_best", "init_run"} => best' = best
       /\ act'.op = "update_best" /\ Len(pop) > 0 =>
             /\ \A j \in Idx : best'.o <= pop[j].o
             /\ best' = best \/ \E j \in Idx : best' = pop[j] ]_mvars
